@@ -50,7 +50,7 @@ def imported_matches(ctx, site, tg, small, got, imp):
             return
 
 
-def check_case(ctx, cs):
+def check_case(ctx, cs, edit_back=False):
     from geomdl import exchange
     ctx.full = cs
     c, o = cs["c"], cs["out"]
@@ -62,7 +62,7 @@ def check_case(ctx, cs):
     ctx.count((op, kind, core.json.dumps(shapes, sort_keys=True)), sample=small)
     d = tempfile.mkdtemp(prefix="verif_c14_")
     try:
-        objs = [build(s) for s in shapes]
+        objs = [build(s, edit_back=edit_back) for s in shapes]
         def samp(k, pd):           # per-direction sampling (u and w equal, v different): the density travels with JSON
             return [3 + k] if pd == 1 else ([3 + k, 5 + k] if pd == 2 else [3 + k, 5 + k, 3 + k])
         for k, ob in enumerate(objs):
@@ -195,6 +195,8 @@ def run(ctx):
         k = cs["out"]["op"] + "/" + cs["c"]["kind"]
         ops[k] = ops.get(k, 0) + 1
         check_case(ctx, cs)
+        if any(s_["rat"] for s_ in cs["c"]["shapes"]):
+            check_case(ctx, cs, edit_back=True)       # the same files from objects whose weights were corrected by get / edit / set
     if len(ops) < 7:
         raise core.MachineryError("vacuous model: %s" % ops)
     check_trims(ctx)
